@@ -3,7 +3,7 @@ from __future__ import annotations
 
 import numpy as np
 
-from .. import gen, geom
+from .. import gen, geom, snap
 from ..core import signature
 from ..monitor import Monitor
 
@@ -133,8 +133,17 @@ def run_unit(unit, rng, ctx):
     traj = gen.make_trajectory(m, gen.species_objects(['Li'] * N), X)
     what = f'{kind}{"/rot" if rot else ""} T={T} N={N} resolution={res!r} ({res_mode})'
     wit = {'matrix': m, 'resolution': res, 'positions': X}
+    before = snap.traj_content(traj)
+    if unit['i'] % 3 == 1:
+        # history: an earlier volume (other resolution) was already computed from the same object
+        _ = traj.to_volume(resolution=float(lengths.min() / rng.uniform(1.5, 4.0)))
+        if rng.integers(2):
+            _ = traj.displacements
+        ctx.count('cases_with_earlier_volume_call')
     vol = traj.to_volume(resolution=res)
     data = np.asarray(vol.data)
+    chg = snap.diff_traj_content(before, snap.traj_content(traj))
+    ctx.check(chg is None, f'{what}: to_volume modified the trajectory it was computed from: {chg}', wit)
     n = np.array(data.shape)
     ctx.check(data.ndim == 3 and bool(np.all(n >= 1)), f'{what}: volume has shape {data.shape}', wit)
     ctx.check(int(data.sum()) == T * N and bool(np.all(data >= 0)), f'{what}: voxel sum {int(data.sum())} != frames x atoms {T * N}', wit)
@@ -142,8 +151,10 @@ def run_unit(unit, rng, ctx):
     ctx.check(bool(np.all(size >= res * (1 - 1e-12)) and np.all(size < 2 * res * (1 + 1e-12))), f'{what}: voxel edges {size.tolist()} not in [resolution, 2 x resolution) (grid {n.tolist()}, lengths {lengths.tolist()})', wit)
     ctx.check(np.allclose(np.asarray(vol.voxel_size), size, rtol=1e-12), f'{what}: voxel_size {np.asarray(vol.voxel_size).tolist()} != lengths / grid {size.tolist()}', wit)
     # where must every sample be?
-    P = np.mod(X, 1)
-    P[P == 1] = 0
+    # the positions as the trajectory reports them now (a displacement round trip may have moved a
+    # coordinate by an ulp, which matters for samples exactly on a voxel edge); that they still are
+    # the input positions (to 1e-9) is asserted above
+    P = np.array(traj.positions, dtype=float)
     flat = P.reshape(-1, 3)
     prod = flat * n
     idx = np.floor(prod).astype(int)
@@ -176,6 +187,9 @@ def run_unit(unit, rng, ctx):
         ctx.check(False, f'{what}: voxel {bad.tolist()} holds {int(data[tuple(bad)])} samples, floor(x*n) puts {int(want[tuple(bad)])} (+{int(slack[tuple(bad)])} on an edge) there', wit)
     else:
         ctx.decided()
+    if unit['i'] % 3 == 2:
+        again = np.asarray(traj.to_volume(resolution=res).data)
+        ctx.check(again.shape == data.shape and np.array_equal(again, data), f'{what}: a second to_volume call on the same trajectory gives a different volume', wit)
     # the converters agree with the binning on a few samples that are clear of the edges
     if sure.any():
         pick = flat[sure][: 5]
